@@ -80,6 +80,21 @@ static void ctr_upd(const char *name, uint64_t v, int is_max)
 void out_count(const char *name, uint64_t n) { ctr_upd(name, n, 0); }
 void out_max(const char *name, uint64_t v) { ctr_upd(name, v, 1); }
 
+/* JSON string into a buffer (no stdio, no allocation): for the crash handler */
+static size_t json_esc(char *dst, size_t n, const char *s)
+{
+        size_t o = 0;
+        if (n < 8) return 0;
+        dst[o++] = '"';
+        for (; *s && o + 8 < n; s++) {
+                unsigned char c = (unsigned char) *s;
+                if (c == '"' || c == '\\') { dst[o++] = '\\'; dst[o++] = (char) c; }
+                else if (c < 0x20) o += (size_t) snprintf(dst + o, n - o, "\\u%04x", c);
+                else dst[o++] = (char) c;
+        }
+        dst[o++] = '"';
+        return o;
+}
 static void json_str(FILE *f, const char *s)
 {
         fputc('"', f);
@@ -228,19 +243,25 @@ static void on_fault(int sig, siginfo_t *si, void *uc_)
                 fault_armed = 0;
                 siglongjmp(fault_jmp, 1);
         }
-        /* died inside (or because of) a library call that no monitor was prepared for */
+        /* died inside (or because of) a library call that no monitor was prepared for. The report is built in static storage and written with
+         * write(2): the heap may be what was destroyed (stdio would call malloc), and a second fault in here must end the process at once */
+        static volatile int in_crash;
+        if (__atomic_exchange_n(&in_crash, 1, __ATOMIC_SEQ_CST)) _exit(cur_label[0] ? 3 : 2);
+        static char line[2600];
         char key[400], msg[600];
         const char *sn = sig == SIGSEGV ? "SIGSEGV" : sig == SIGBUS ? "SIGBUS" : sig == SIGILL ? "SIGILL" : sig == SIGFPE ? "SIGFPE" : "SIGABRT";
         snprintf(key, sizeof key, "crash %s %s", sn, cur_label[0] ? cur_label : "(no label)");
         snprintf(msg, sizeof msg, "process received %s at pc=%p addr=%p during: %s", sn, (void *) uc->uc_mcontext.gregs[REG_RIP], si->si_addr, cur_label);
+        size_t o = 0;
         if (cur_label[0]) {
-                printf("{\"t\":\"viol\",\"prop\":\"%s\",\"key\":", cur_prop ? cur_prop : g_prop);
-                json_str(stdout, key); fputs(",\"msg\":", stdout); json_str(stdout, msg);
-                printf(",\"replay\":%s}\n", cur_replay[0] ? cur_replay : "null");
+                o += (size_t) snprintf(line + o, sizeof line - o, "\n{\"t\":\"viol\",\"prop\":\"%s\",\"key\":", cur_prop ? cur_prop : g_prop);
+                o += json_esc(line + o, sizeof line - o, key); o += (size_t) snprintf(line + o, sizeof line - o, ",\"msg\":"); o += json_esc(line + o, sizeof line - o, msg);
+                o += (size_t) snprintf(line + o, sizeof line - o, ",\"replay\":%s}\n", cur_replay[0] ? cur_replay : "null");
         } else {
-                fputs("{\"t\":\"err\",\"msg\":", stdout); json_str(stdout, msg); fputs("}\n", stdout);
+                o += (size_t) snprintf(line + o, sizeof line - o, "\n{\"t\":\"err\",\"msg\":"); o += json_esc(line + o, sizeof line - o, msg); o += (size_t) snprintf(line + o, sizeof line - o, "}\n");
         }
-        fflush(stdout);
+        fflush(stdout);         /* earlier complete lines; writes the existing buffer, no allocation */
+        if (write(1, line, o) < 0) _exit(2);
         _exit(cur_label[0] ? 3 : 2);
 }
 static void on_alarm(int sig)
